@@ -624,38 +624,67 @@ func c18IsValid(c *Ctx, f *ssa.Function) {
 func c18UdpMatch(c *Ctx, f *ssa.Function) {
 	r, sx := c.R, c.Sx()
 	key := func(s string) string { return "nclient4.udpMatch: " + s }
-	// returns: true when bound == nil; false when bound.IP != nil && !Equal; else bound.Port == addr.Port
+	// what the predicate computes, by truth table over its atomic conditions:
+	//   bound == nil  ∨  ((bound.IP == nil ∨ bound.IP.Equal(addr.IP)) ∧ bound.Port == addr.Port)
+	// however it is written (early returns, one boolean expression, temporaries)
 	addr, bound := sx.Of(f.Params[0]).String(), sx.Of(f.Params[1]).String()
-	okPort, okTrueNil, okIP := false, false, false
-	gc := newGuardCache(c)
-	for _, ret := range returnsOf(f) {
-		s := sx.Of(ret.Results[0]).String()
-		var fs []string
-		for _, x := range gc.of(ret.Block()) {
-			fs = append(fs, x.str)
+	type role struct {
+		name string
+		neg  bool
+	}
+	roles := map[ssa.Value]role{}
+	var unknown []string
+	for _, a := range boolAtomsOf(f) {
+		s := sx.Of(a).String()
+		neg := false
+		if bo, ok := a.(*ssa.BinOp); ok && bo.Op == token.NEQ {
+			neg = true
+			s = "bin[==]" + s[len("bin[!=]"):]
 		}
-		all := strings.Join(fs, " ∧ ")
-		switch {
-		case s == "const(true)":
-			if strings.Contains(all, "bin[==](const(nil:*net.UDPAddr),"+bound+")=true") || strings.Contains(all, "bin[==]("+bound+",const(nil:*net.UDPAddr))=true") {
-				okTrueNil = true
-			} else {
-				r.Violation("C18-K3", key("accepts only an unbound connection unconditionally"), c.P.ipos(ret), "returns true under "+all)
-			}
-		case s == "const(false)":
-			if strings.Contains(all, "call[(net.IP).Equal](field[IP]("+bound+"),field[IP]("+addr+"))=false") || strings.Contains(all, "call[(net.IP).Equal](field[IP]("+addr+"),field[IP]("+bound+"))=false") {
-				okIP = true
-			}
+		switch s {
+		case "bin[==](const(nil:*net.UDPAddr)," + bound + ")", "bin[==](" + bound + ",const(nil:*net.UDPAddr))":
+			roles[a] = role{"N", neg}
+		case "bin[==](const(nil:net.IP),field[IP](" + bound + "))", "bin[==](field[IP](" + bound + "),const(nil:net.IP))":
+			roles[a] = role{"A", neg}
+		case "call[(net.IP).Equal](field[IP](" + bound + "),field[IP](" + addr + "))", "call[(net.IP).Equal](field[IP](" + addr + "),field[IP](" + bound + "))":
+			roles[a] = role{"B", neg}
+		case "bin[==](field[Port](" + addr + "),field[Port](" + bound + "))", "bin[==](field[Port](" + bound + "),field[Port](" + addr + "))":
+			roles[a] = role{"C", neg}
 		default:
-			if s == "bin[==](field[Port]("+addr+"),field[Port]("+bound+"))" || s == "bin[==](field[Port]("+bound+"),field[Port]("+addr+"))" {
-				okPort = true
-			} else {
-				r.Violation("C18-K3", key("port comparison"), c.P.ipos(ret), "returns "+s)
-			}
+			unknown = append(unknown, s)
 		}
 	}
-	r.Check(okTrueNil && okIP && okPort, "C18-K3", key("nil bound ⇒ accept; bound IP set and different ⇒ reject; else ports equal"), c.P.pos(f.Pos()), "guard sets of the three returns",
-		fmt.Sprintf("unbound-accept=%v ip-reject=%v port-compare=%v", okTrueNil, okIP, okPort))
+	if len(unknown) > 0 {
+		r.Violation("C18-K3", key("decides on the bound address and port only"), c.P.pos(f.Pos()), "the predicate also depends on "+strings.Join(unknown, ", ")+": frames for the bound address and port can be skipped, or foreign ones delivered")
+		return
+	}
+	have := map[string]bool{}
+	for _, ro := range roles {
+		have[ro.name] = true
+	}
+	if !(have["N"] && have["A"] && have["B"] && have["C"]) {
+		r.Violation("C18-K3", key("nil bound ⇒ accept; bound IP set and different ⇒ reject; else ports equal"), c.P.pos(f.Pos()),
+			fmt.Sprintf("the predicate does not test all of: bound == nil (%v), bound.IP == nil (%v), bound.IP.Equal(addr.IP) (%v), ports equal (%v)", have["N"], have["A"], have["B"], have["C"]))
+		return
+	}
+	bad := ""
+	for m := 0; m < 16; m++ {
+		val := map[string]bool{"N": m&1 != 0, "A": m&2 != 0, "B": m&4 != 0, "C": m&8 != 0}
+		assign := map[ssa.Value]bool{}
+		for a, ro := range roles {
+			assign[a] = val[ro.name] != ro.neg
+		}
+		got, ok := boolEval(f, 0, assign)
+		if !ok {
+			r.Undecided("C18-K3", key("truth table"), c.P.pos(f.Pos()), "the predicate is not a loop-free boolean function of its atomic conditions")
+			return
+		}
+		want := val["N"] || ((val["A"] || val["B"]) && val["C"])
+		if got != want {
+			bad = fmt.Sprintf("for bound==nil:%v bound.IP==nil:%v IPs equal:%v ports equal:%v the predicate yields %v, the contract %v", val["N"], val["A"], val["B"], val["C"], got, want)
+		}
+	}
+	r.Check(bad == "", "C18-K3", key("nil bound ⇒ accept; bound IP set and different ⇒ reject; else ports equal"), c.P.pos(f.Pos()), "truth table over the four atomic conditions (16 rows)", bad)
 }
 
 // ---------------------------------------------------------------------------
